@@ -10,7 +10,9 @@ use taskchampion::server::verif::{Decision, Gate, MemStore, Request, VerifCloudS
 use taskchampion::server::{AddVersionResult, GetVersionResult, Server};
 use uuid::Uuid;
 
-pub const SECRET: &[u8] = b"harness secret";
+/// The encryption secret every harness client uses: an arbitrary byte string, deliberately with
+/// leading/trailing whitespace and a non-UTF-8 byte (the documentation allows any bytes).
+pub const SECRET: &[u8] = b" harness secret \xff\t\n";
 pub const DAY: u64 = 86_400;
 
 pub fn real_now() -> u64 {
